@@ -32,7 +32,19 @@ type kind struct {
 	passes bool // the statement says this test is reported as passed
 	stops  bool // @fail
 	body   func(i int) string
+	cell   string // name used in cell keys when it differs from name (same root cause, same cell)
 }
+
+func (k *kind) cellName() string {
+	if k.cell != "" {
+		return k.cell
+	}
+
+	return k.name
+}
+
+// every "...-with-type" kind declares a type of the SAME name inside its body
+const typeDecl = "type point struct {\n\t\tx int\n\t\ty int\n\t}"
 
 func braced(lines ...string) string {
 	return "{\n\t" + strings.Join(lines, "\n\t") + "\n}\n"
@@ -40,17 +52,17 @@ func braced(lines ...string) string {
 
 // The alphabet. Names are used in cell keys.
 var kinds = []kind{
-	{'p', "pass", true, false, func(i int) string { return braced("x := 1", "@assert x == 1") }},
+	{'p', "pass", true, false, func(i int) string { return braced("x := 1", "@assert x == 1") }, ""},
 	{'o', "pass-with-output", true, false, func(i int) string {
 		return braced(fmt.Sprintf(`fmt.Println("OUT%d")`, i), "@assert true")
-	}},
-	{'a', "assert-fails", false, false, func(i int) string { return braced("x := 1", "@assert x == 2") }},
+	}, ""},
+	{'a', "assert-fails", false, false, func(i int) string { return braced("x := 1", "@assert x == 2") }, ""},
 	{'q', "output-then-assert-fails", false, false, func(i int) string {
 		return braced(fmt.Sprintf(`fmt.Println("OUT%d")`, i), "@assert false")
-	}},
+	}, ""},
 	{'e', "runtime-error", false, false, func(i int) string {
 		return braced("zero := 0", "y := 1 / zero", "fmt.Println(y)")
-	}},
+	}, ""},
 	{'n', "runtime-error-in-function-with-defer", false, false, func(i int) string {
 		return braced(
 			"f := func() int {",
@@ -60,10 +72,10 @@ var kinds = []kind{
 			"}",
 			"y := f()",
 			"fmt.Println(y)")
-	}},
+	}, ""},
 	{'t', "error-inside-try", true, false, func(i int) string {
 		return braced("zero := 0", "r := 0", "try {", "	r = 1 / zero", "} catch {", "	r = 7", "}", "@assert r == 7")
-	}},
+	}, ""},
 	{'d', "pass-with-defer", true, false, func(i int) string {
 		return braced(
 			"f := func() int {",
@@ -71,22 +83,44 @@ var kinds = []kind{
 			"	return 5",
 			"}",
 			"@assert f() == 5")
-	}},
+	}, ""},
 	{'r', "pass-with-return", true, false, func(i int) string {
 		return braced("x := 1", "if x == 1 {", "	return", "}", "@assert false")
-	}},
-	{'x', "compile-error-bad-token", false, false, func(i int) string { return braced("x := := 3") }},
+	}, ""},
+	{'x', "compile-error-bad-token", false, false, func(i int) string { return braced("x := := 3") }, ""},
 	{'u', "undefined-symbol", false, false, func(i int) string {
 		return braced(fmt.Sprintf("y := undefinedthing%d + 1", i), "fmt.Println(y)")
-	}},
+	}, ""},
 	{'m', "compile-error-missing-close-brace", false, false, func(i int) string {
 		return "{\n\tif true {\n\t\tx := 1\n\t\tfmt.Println(x)\n}\n"
-	}},
+	}, ""},
 	{'k', "compile-error-extra-close-brace", false, false, func(i int) string {
 		return "{\n\tx := 1\n\tfmt.Println(x)\n}\n}\n"
-	}},
-	{'f', "fail-directive", false, true, func(i int) string { return braced(`@fail "stop"`) }},
+	}, ""},
+	{'f', "fail-directive", false, true, func(i int) string { return braced(`@fail "stop"`) }, ""},
+	{'P', "pass-with-type", true, false, func(i int) string {
+		return braced(typeDecl, "p := point{x: 3, y: 4}", "@assert p.x+p.y == 7")
+	}, ""},
+	{'A', "assert-fails-after-type", false, false, func(i int) string {
+		return braced(typeDecl, "p := point{x: 3, y: 4}", "@assert p.x == 5")
+	}, ""},
+	{'E', "runtime-error-after-type", false, false, func(i int) string {
+		return braced(typeDecl, "p := point{x: 0, y: 4}", "q := p.y / p.x", "fmt.Println(q)")
+	}, ""},
+	{'X', "bad-token-after-type", false, false, func(i int) string {
+		return braced(typeDecl, "p := point{x: 1, y: 2}", "@assert p.x == == 1")
+	}, ""},
+	{'M', "missing-brace-after-type", false, false, func(i int) string {
+		return "{\n\t" + typeDecl + "\n\tp := point{x: 1, y: 2}\n\tif true {\n\t\tfmt.Println(p.x)\n}\n"
+	}, "compile-error-missing-close-brace"},
+	{'K', "extra-brace-after-type", false, false, func(i int) string {
+		return "{\n\t" + typeDecl + "\n\tp := point{x: 1, y: 2}\n\tfmt.Println(p.x)\n}\n}\n"
+	}, "compile-error-extra-close-brace"},
 }
+
+// typeAlphabet: the kinds that declare the shared type name, next to a plain
+// pass, a plain compile error and @fail.
+const typeAlphabet = "pPAEXMKxf"
 
 var kindOf = func() map[byte]*kind {
 	m := map[byte]*kind{}
@@ -233,6 +267,8 @@ func judge(seq string, prefix string, p parsed, whole bool, failedStatus bool) *
 		}
 
 		switch {
+		case len(passAt[i]) == 0 && len(failAt[i]) > 0:
+			note("passing-test-reported-as-failed", i, "passing test %s has a (FAIL) line and no (PASS) line", name[i])
 		case len(passAt[i]) == 0:
 			note("later-tests-lost", i, "passing test %s has no (PASS) line", name[i])
 		case len(passAt[i]) > 1:
@@ -344,12 +380,12 @@ func judge(seq string, prefix string, p parsed, whole bool, failedStatus bool) *
 func culprit(seq string, at int) string {
 	for i := at - 1; i >= 0; i-- {
 		if !kindOf[seq[i]].passes {
-			return kindOf[seq[i]].name
+			return kindOf[seq[i]].cellName()
 		}
 	}
 
 	if at < len(seq) && !kindOf[seq[at]].passes {
-		return kindOf[seq[at]].name
+		return kindOf[seq[at]].cellName()
 	}
 
 	return "none"
@@ -483,9 +519,11 @@ func main() {
 		rep.Finish()
 	}
 
-	all := ""
+	all := "" // the 14 kinds without type declarations
 	for _, k := range kinds {
-		all += string(k.letter)
+		if k.letter >= 'a' && k.letter <= 'z' {
+			all += string(k.letter)
+		}
 	}
 
 	// Sweeps. @fail ends the judged part of a file (nothing is demanded of the
@@ -501,11 +539,11 @@ func main() {
 	var sweeps, soloSweeps []sweep
 
 	if rep.Thorough() {
-		sweeps = []sweep{{all, 1, 4}, {"paextf", 5, 5}}
-		soloSweeps = []sweep{{all, 1, 2}, {"poaextfmk", 3, 3}}
+		sweeps = []sweep{{all, 1, 4}, {"paextf", 5, 5}, {typeAlphabet, 1, 4}}
+		soloSweeps = []sweep{{all, 1, 2}, {"poaextfmk", 3, 3}, {typeAlphabet, 1, 3}}
 	} else {
-		sweeps = []sweep{{all, 1, 3}, {"poaextfmk", 4, 4}}
-		soloSweeps = []sweep{{all, 1, 2}}
+		sweeps = []sweep{{all, 1, 3}, {"poaextfmk", 4, 4}, {typeAlphabet, 1, 3}}
+		soloSweeps = []sweep{{all, 1, 2}, {typeAlphabet, 1, 2}}
 	}
 
 	if ms := os.Getenv("C13_MAXLEN"); ms != "" {
@@ -563,6 +601,24 @@ func main() {
 			solo = append(solo, q+"f")
 		}
 	}
+
+	// sweeps overlap (sequences over the kinds they share): each sequence once
+	dedupe := func(in []string) []string {
+		seen := map[string]bool{}
+		out := in[:0:0]
+
+		for _, q := range in {
+			if !seen[q] {
+				seen[q] = true
+
+				out = append(out, q)
+			}
+		}
+
+		return out
+	}
+
+	plain, stopping, solo = dedupe(plain), dedupe(stopping), dedupe(solo)
 
 	// Batches: up to batchSize files in one directory, run by one
 	// `ego test <dir>`; a sequence ending in @fail is always the last file.
